@@ -170,7 +170,11 @@ impl Imp {
         match op {
             Op::Lookup { parent, name } => ent(fs.lookup(&root_ctx, ri(parent), &cs(name))),
             Op::Forget { ino, count } => {
-                fs.forget(&root_ctx, ri(ino), *count);
+                if *count & crate::ops::VIA_BATCH != 0 {
+                    fs.batch_forget(&root_ctx, vec![(ri(ino), *count & !crate::ops::VIA_BATCH)]);
+                } else {
+                    fs.forget(&root_ctx, ri(ino), *count);
+                }
                 Reply::Unit
             }
             Op::Getattr { ino, handle } => match fs.getattr(&root_ctx, ri(ino), handle.as_ref().map(rh)) {
